@@ -158,6 +158,8 @@ func c01Families() []*c01Family {
 	for _, sc := range []string{"http", "https"} {
 		f5 = append(f5, sc+"://x.a.b", sc+"://y.a.b:8080", sc+"://*.a.b:*", sc+"://*.a.b")
 	}
+	// F7: IP literals whose texts share tails that are not label / hextet boundaries
+	f7 := []string{"http://[::1]", "http://[fe80::1]", "http://[::21]:9090", "http://[1::1]:*", "http://[fe80::1]:*", "http://1.2.3.4", "http://21.2.3.4", "http://1.2.3.4:*", "http://12.3.4.5", "http://[::1]:9090"}
 	f3 := []string{
 		"http://1.2.3.4", "http://127.0.0.1", "http://127.0.0.1:8080", "http://127.0.0.1:*",
 		"http://[::1]", "http://[::1]:9090", "http://[::1]:*", "http://[2001:db8::1]",
@@ -177,6 +179,7 @@ func c01Families() []*c01Family {
 		{name: "F2c-ports", patterns: f2c},
 		{name: "F3-literals-extremes", patterns: f3},
 		{name: "F5-schemes-over-one-subtree", patterns: f5},
+		{name: "F7-ip-literals-sharing-tails", patterns: f7},
 	}
 }
 
